@@ -202,28 +202,34 @@ def opTcpConnect (w : World) (h s : Nat) (dst : Addr) : World × String :=
     else
       (w.setObj h s (.connecting id loc dst chan fcW)).connectPoll h s
 
+/-- The listener's scan of its SYN queue: pop requests until one whose connector is still waiting
+    (`alive`); dead connectors are skipped (and discarded). -/
+def acceptPick (alive : Nat → Bool) : List SynReq → Option SynReq × List SynReq
+  | [] => (none, [])
+  | r :: rest => if alive r.id then (some r, rest) else acceptPick alive rest
+
+def synAlive (w : World) (id : Nat) : Bool :=
+  let cell := w.syns.getD id default
+  cell.rxAlive && cell.st == .pending
+
 /-- `TcpListener::accept` polled once. -/
-def acceptLoop (w : World) (h : Nat) (port : Nat) : Nat → World × Option SynReq
-  | 0 => (w, none)
-  | fuel + 1 =>
-    match (w.host! h).tcpBinds.findIdx? (·.port == port) with
-    | none => (w.panic "no bind", none)
-    | some bi =>
-      let b := (w.host! h).tcpBinds.getD bi default
-      match b.deque with
-      | [] => (w, none)
-      | r :: rest =>
-        let w := w.setHost h (fun hs => { hs with tcpBinds := setAt hs.tcpBinds bi (fun b => { b with deque := rest }) })
-        let cell := w.syns.getD r.id default
-        if cell.rxAlive && cell.st == .pending then
-          ({ w with syns := setAt w.syns r.id (fun c => { c with st := .acked }) }, some r)
-        else acceptLoop (w.tag "skipdead") h port fuel
+def acceptLoop (w : World) (h : Nat) (port : Nat) : World × Option SynReq :=
+  match (w.host! h).tcpBinds.findIdx? (·.port == port) with
+  | none => (w.panic "no bind", none)
+  | some bi =>
+    let b := (w.host! h).tcpBinds.getD bi default
+    let (r?, rest) := acceptPick w.synAlive b.deque
+    let w := w.setHost h (fun hs => { hs with tcpBinds := setAt hs.tcpBinds bi (fun b => { b with deque := rest }) })
+    let skipped := b.deque.length - rest.length - (if r?.isSome then 1 else 0)
+    let w := if skipped > 0 then w.tag "skipdead" else w
+    match r? with
+    | some r => ({ w with syns := setAt w.syns r.id (fun c => { c with st := .acked }) }, some r)
+    | none => (w, none)
 
 def opTcpAccept (w : World) (h ls s : Nat) : World × String :=
   match w.getObj h ls with
   | some (.listener lloc) =>
-    let n := match (w.host! h).tcpBinds.find? (·.port == lloc.port) with | some b => b.deque.length | none => 0
-    let (w, r?) := acceptLoop w h lloc.port (n + 1)
+    let (w, r?) := acceptLoop w h lloc.port
     match r? with
     | none => (w, "pending")
     | some r =>
@@ -319,7 +325,7 @@ def opTcpRead (w : World) (h s : Nat) (n : Nat) (peek : Bool) : World × String 
           let w := w.setObj h s (.stream (some r') wr)
           ((w.redrain h r), s!"ok {hexTok (hexTake b n)}")
         | .fin =>
-          ((w.setObj h s (.stream (some { r with closed := true }) wr)).tag "eof", "ok -")
+          (((w.setObj h s (.stream (some { r with closed := true }) wr)).tag "eof").redrain h r, "ok -")
       | [] =>
         if !c.txAlive then (w.tag "reset", "err reset") else (w, "pending")
   | _ => (w, "err badslot")
